@@ -212,7 +212,7 @@ func c09Run(b *core.B) {
 	}
 	reps := 40
 	if b.Tier == core.Thorough {
-		reps = 4000
+		reps = 10000
 	}
 	var idx int64
 	for rep := 0; rep < reps; rep++ {
